@@ -4,6 +4,7 @@ package app
 
 import (
 	"github.com/go-kid/ioc/configure"
+	"github.com/go-kid/ioc/container"
 	"github.com/go-kid/ioc/container/factory"
 	"github.com/go-kid/ioc/container/support"
 	"github.com/go-kid/ioc/zzverif/nd"
@@ -74,6 +75,19 @@ type vIAppCloser struct {
 func (c *vIAppCloser) Naming() string { return "a-shutdown-hook" }
 func (c *vIAppCloser) Close() error   { c.closed++; return nil }
 
+// an eager component that is only a factory post-processor (not a component post-processor): it is
+// created and initialised like any other eager component
+type vIFactoryPP struct {
+	log *vILog
+}
+
+func (p *vIFactoryPP) Naming() string                                        { return "a-locator" }
+func (p *vIFactoryPP) PostProcessComponentFactory(f container.Factory) error { return nil }
+func (p *vIFactoryPP) Init() error {
+	p.log.ev = append(p.log.ev, "init:locator")
+	return nil
+}
+
 // stateless (zero-sized) runners: real Go may give all of them one address
 type vIZRun1 struct{}
 type vIZRun2 struct{}
@@ -118,11 +132,23 @@ func VerifAppIntegration() {
 		comps = append(comps, &vIZRun1{}, &vIZRun2{})
 	}
 	var hook *vIAppCloser
+	earlyClose := false
 	if nd.Bool() {
 		hook = &vIAppCloser{}
 		comps = append(comps, hook)
+		earlyClose = nd.Bool()
+	}
+	withLocator := nd.Bool()
+	if withLocator {
+		comps = append(comps, &vIFactoryPP{log: log})
+		nd.Cover("eager component that is only a factory post-processor")
 	}
 	s := &App{Configure: &vICfg{}, registry: support.NewRegistry(), Factory: factory.Default()}
+	if earlyClose {
+		// a shutdown request that arrives before start-up finds nothing to close
+		s.Close()
+		nd.Cover("Close called before start-up")
+	}
 	SetComponents(comps...)(s)
 	nd.Assert(s.initiate() == nil, "initiate ok")
 	err := s.run()
@@ -163,7 +189,11 @@ func VerifAppIntegration() {
 		s.Close()
 		nd.Assert(hook.closed == 1, "C14: App.Close invokes every registered closer exactly once, also one that was still being created when the App collected its closers")
 	}
-	nd.Assert(inits == n, "C05: every eager component is initialised exactly once")
+	wantInits := n
+	if withLocator {
+		wantInits++
+	}
+	nd.Assert(inits == wantInits, "C05: every eager component is initialised exactly once")
 	nd.Assert(runs == nr, "C13: every registered runner is invoked exactly once")
 	nd.Assert(firstRun < 0 || lastInit < firstRun, "C13: runners are invoked only after every eagerly created component has finished initialization")
 }
